@@ -16,6 +16,7 @@ func init() {
 }
 
 func ruleLexPos(c *Ctx) {
+	lexSourceAsGiven(c)
 	named, st := c.structType("lexer", "Lexer")
 	if st == nil {
 		c.undecided("anchor:Lexer", token.NoPos, "type lexer.Lexer not found")
@@ -246,4 +247,30 @@ func samePtr(a, b ssa.Value) bool {
 		}
 	}
 	return n == 1
+}
+
+// lexSourceAsGiven (part of R-LEXPOS, C03): a reported position is the line and column of a byte of the source the
+// caller passed in, and the CLI indexes that same source by it. The lexer's byte-slice field is therefore only ever
+// assigned the constructor's parameter itself: a re-slice or a copy with something removed (a byte-order mark, a
+// trailing newline) shifts every later position against the caller's text.
+func lexSourceAsGiven(c *Ctx) {
+	n := 0
+	for _, fn := range c.srcFuncs("lexer") {
+		fn := fn
+		allInstrs(fn, func(in ssa.Instruction) {
+			st, ok := in.(*ssa.Store)
+			if !ok {
+				return
+			}
+			f, base := fieldOfAddr(st.Addr)
+			if f == nil || !isNamed(deref(base.Type()), modPath+"/lexer", "Lexer") || !isByteSlice(f.Type()) {
+				return
+			}
+			n++
+			_, isParam := st.Val.(*ssa.Parameter)
+			c.check(isParam, "src:as-given:"+fnKey(fn), in.Pos(), "the lexer scans the caller's source as given",
+				fnKey(fn)+" stores into the lexer's source field something other than the parameter it was given (a re-slice or an edited copy): every position reported afterwards is the line/column in that derived text, not in the source the caller holds - the CLI's caret and any tool that indexes the source by the position point at the wrong byte")
+		})
+	}
+	c.atLeast("assignments of the lexer's source", n, 1)
 }
